@@ -45,7 +45,7 @@ def jobs(tier: str):
 
     keep1 = slice_keep("quick")
     fams = ["C05", "C08", "C09", "C10", "C11", "C12", "C13", "C14", "C15"]
-    yield from compose.remap(compose.family_jobs(fams, tier, variants=12), "C02", mk,
+    yield from compose.remap(compose.family_jobs(fams, "quick", variants=12 if quick else 60), "C02", mk,
                              keep=lambda j: compose.has_objective(j["prog"]) and (
                                  keep1(j) or j["family"].split("/")[0].split("~")[0] in ("C13",)))
 
